@@ -462,7 +462,9 @@ fn eval_node_test(
             }
             expr::NameTest::QName(qname) => equal_qname(qname, node, context),
         },
-        expr::NodeTest::PI(_) => unimplemented!("Not support `processing-instruction`."),
+        expr::NodeTest::PI(target) => {
+            Ok(node.node_type() == dom::NodeType::PI && node.node_name() == *target)
+        }
         expr::NodeTest::Type(ty) => match ty {
             expr::NodeType::Comment => Ok(node.node_type() == dom::NodeType::Comment),
             expr::NodeType::Node => Ok(true),
